@@ -54,6 +54,12 @@ void jls_statistics_compute_f32(struct jls_statistics_s * s, const float * x, ui
         }
     }
     v_mean /= length;
+    if (v_mean < v_min) {  // rounding of sum / length can leave [min, max] by an ulp
+        v_mean = v_min;
+    }
+    if (v_mean > v_max) {
+        v_mean = v_max;
+    }
     double m;
     for (uint64_t i = 0; i < length; ++i) {
         m = x[i] - v_mean;
@@ -87,6 +93,12 @@ void jls_statistics_compute_f64(struct jls_statistics_s * s, const double * x, u
         }
     }
     v_mean /= length;
+    if (v_mean < v_min) {  // rounding of sum / length can leave [min, max] by an ulp
+        v_mean = v_min;
+    }
+    if (v_mean > v_max) {
+        v_mean = v_max;
+    }
     double m;
     for (uint64_t i = 0; i < length; ++i) {
         m = x[i] - v_mean;
@@ -152,9 +164,17 @@ void jls_statistics_combine(struct jls_statistics_s *tgt,
         m2_diff = b->mean - mean_new;
         tgt->s = (a->s + a->k * m1_diff * m1_diff) +
                  (b->s + b->k * m2_diff * m2_diff);
+        double min_new = (a->min < b->min) ? a->min : b->min;
+        double max_new = (a->max > b->max) ? a->max : b->max;
+        if (mean_new < min_new) {  // rounding of the weighted sum can leave [min, max] by an ulp
+            mean_new = min_new;
+        }
+        if (mean_new > max_new) {
+            mean_new = max_new;
+        }
         tgt->mean = mean_new;
-        tgt->min = (a->min < b->min) ? a->min : b->min;
-        tgt->max = (a->max > b->max) ? a->max : b->max;
+        tgt->min = min_new;
+        tgt->max = max_new;
         tgt->k = kt;
     }
 }
